@@ -1037,9 +1037,20 @@ class Watcher(object):
                     self.spawn_process()
                     yield tornado_sleep(self.warmup_delay)
             else:
+                previous = list(self.processes.values())
                 for i in range(self.numprocesses):
                     self.spawn_process()
                 yield self.manage_processes()
+                # manage_processes only removes the surplus: when a new
+                # worker died meanwhile, a worker of the previous generation
+                # would survive the reload
+                leftover = [p for p in previous if p.pid in self.processes]
+                if leftover:
+                    removes = yield [self.kill_process(p) for p in leftover]
+                    for i, process in enumerate(leftover):
+                        if removes[i]:
+                            self.processes.pop(process.pid)
+                    yield self.manage_processes()
         self.notify_event("reload", {"time": time.time()})
         logger.info('%s reloaded', self.name)
 
